@@ -10,6 +10,7 @@ package lib
 //	bseq   <T> <dialect> <ver1>:<hex1> ... <verN>:<hexN>  ONE receiver parses all bodies in order (each with its
 //	                                             own header version); answer of the last
 //	brt    <T> <ver> <dialect> <hex>             parse (fresh) then Encode: "ok <dump> enc=<hex>"
+//	bseqrt <T> <dialect> <ver1>:<hex1> ...       ONE receiver: parse then Encode after each body; answer of the last
 //	benc   <T> <ver> <dialect> <tree> [g=..]     build the value from the dump syntax, Encode, Parse back:
 //	                                             "enc=<hex> back=<answer of bparse> wf=1"
 //	time2bcd <hex of text> | bcd2time <hex> | bcd2dec <hex> | fill <hex of text> <n>
@@ -373,6 +374,29 @@ func BodyParseSeq(t *BodyType, dial int, bodies []VerBody) string {
 	return "ok " + safeDump(h)
 }
 
+// BodyRoundTripSeq: ONE receiver parses every body in order and is encoded after each parse; the answer is that of
+// the last step: "ok <dump> enc=<hex>" | "err" | "panic" (an earlier failing step does not stop the sequence: the
+// server keeps the handler object either way).
+func BodyRoundTripSeq(t *BodyType, dial int, bodies []VerBody) string {
+	h := t.New(consts.ActiveSafetyType(dial))
+	ans := "none"
+	for _, b := range bodies {
+		o := ParseInto(h, b.Ver, Exact(b.Body))
+		if o != "ok" {
+			ans = o
+			continue
+		}
+		d := safeDump(h)
+		e, p := SafeEncode(h)
+		if p {
+			ans = "ok " + d + " enc=panic"
+		} else {
+			ans = "ok " + d + " enc=" + Hx(e)
+		}
+	}
+	return ans
+}
+
 func SafeEncode(h BodyHandler) (b []byte, panicked bool) {
 	defer func() {
 		if r := recover(); r != nil {
@@ -571,6 +595,14 @@ func init() {
 			vb = append(vb, VerBody{atoi(x[:i]), Unhx(x[i+1:])})
 		}
 		return BodyParseSeq(BodyTypeByName(a[0]), atoi(a[1]), vb)
+	})
+	RegisterOp("bseqrt", func(a []string) string { // bseqrt <T> <dialect> <ver1>:<hex1> ... : reused receiver, parse + encode each
+		var vb []VerBody
+		for _, x := range a[2:] {
+			i := strings.IndexByte(x, ':')
+			vb = append(vb, VerBody{atoi(x[:i]), Unhx(x[i+1:])})
+		}
+		return BodyRoundTripSeq(BodyTypeByName(a[0]), atoi(a[1]), vb)
 	})
 	RegisterOp("brt", func(a []string) string {
 		return BodyRoundTrip(BodyTypeByName(a[0]), atoi(a[1]), atoi(a[2]), Unhx(a[3]))
